@@ -538,6 +538,11 @@ theorem npW_sigma_inv (m0 : ℝ) (l : List Nat) : Sigma (npW m0 l) * PcW m0 l = 
   have h := npW_Sigma m0 l
   exact (congrArg (fun M : Matrix (Fin 3) (Fin 3) ℝ => M * PcR) h).trans sigma_inv
 
+/-- `Σ⁻¹` at the index type of `npR` -/
+noncomputable def PcN : Matrix (Fin (toProblem npR).m) (Fin (toProblem npR).m) ℝ := PcR
+
+theorem npR_sigma_inv : Sigma npR * PcN = 1 := npW_sigma_inv 2 [1]
+
 theorem npW_dense (m0 : ℝ) (l : List Nat) : (toProblem (npW m0 l)).dense = #[#[4, 4], #[5, 5], #[4, 4]] := by
   simp [Problem.dense, toProblem, npW]
   refine ⟨?_, ?_, ?_⟩ <;> rfl
@@ -636,6 +641,9 @@ theorem npW_rankGap (m0 : ℝ) (l : List Nat) (hl : l = [1] ∨ l = [2]) (hm : 1
     rcases hl with rfl | rfl
     · rw [npW_S1]; exact eqcols_margin _ (Or.inl rfl)
     · rw [npW_S2]; exact eqcols_margin _ (Or.inr rfl)
+
+theorem npR_rankGap : RankGap (toProblem npR).A ((npR.m0 * npR.m0) • PcN) (toProblem npR).S (1 / 2) :=
+  npW_rankGap 2 [1] (Or.inl rfl) (by norm_num)
 
 theorem npW_regListOK (m0 : ℝ) (l : List Nat) (hl : l = [1] ∨ l = [2]) : Env.RegListOK (toProblem (npW m0 l)) := by
   intro l' hl'
